@@ -41,7 +41,7 @@ pub fn run_cancel_f(compressed: bool, verify: bool, events: Vec<Ev>, wscript: Ve
         let mut items = vec![];
         let mut n = 0usize;
         let mut dropped_in_write = false;
-        let mut budget = 400usize;
+        let mut budget = 1500usize;
         'session: loop {
             let before = script.lock().unwrap().injected;
             let mut fut = Box::pin(framed.read());
@@ -186,6 +186,16 @@ pub fn run(ctx: &mut Ctx) {
             // a transport whose flush is sometimes not ready (every await point of the read future is a drop point)
             let fl: Vec<bool> = if ctx.rng.chance(1, 3) { (0..8).map(|_| ctx.rng.chance(1, 2)).collect() } else { vec![] };
             cancel_case_f(ctx, compressed, verify, &frames, &evs, &ws, &fl, &drops);
+        }
+        // 6. a long backlog in one segment (100 and 200 small frames decoded back to back with no transport read in between): every
+        // suspension of such a session is a drop point like any other
+        for nframes in [100usize, 200] {
+            let frames: Vec<Vec<u8>> = (0..nframes).map(|i| vec![size_byte(compressed, 4), 3, (1 + i % 250) as u8, 3]).collect();
+            let evs = vec![Ev::Pending, Ev::Data(frames.concat()), Ev::Pending, Ev::Eof];
+            let base = run_cancel(compressed, false, evs.clone(), vec![], &BTreeSet::new());
+            let n = base.map(|b| b.suspensions).unwrap_or(0).min(12) + 4;
+            cancel_case(ctx, compressed, false, &frames, &evs, &[], &BTreeSet::new());
+            for i in 0..n { cancel_case(ctx, compressed, false, &frames, &evs, &[], &[i].into_iter().collect()); }
         }
         // 5. version verification on: a refused IS_VER is a result like any other — with a write half that is not ready or takes
         // a byte at a time (whatever the connection may want to send at that point), every drop index
